@@ -575,7 +575,7 @@ def pmatch(node, pat, b=None):
     Pattern names starting with `_` are wildcards: `_` matches anything, `_x` matches anything and must match the
     same text everywhere.  `+` and `*` match up to re-ordering of their operands.  A call in the pattern lists the
     positional arguments that must be present in order (a trailing `*_` allows more) and the keywords that must be
-    present; further keywords in the code are accepted.  Returns the bindings dict or None."""
+    present; further keywords in the code are accepted only when the pattern ends in `**_` (or `*_`).  Returns the bindings dict or None."""
     if isinstance(pat, str):
         pat = ast.parse(pat.strip(), mode="eval").body
     b = {} if b is None else b
@@ -630,9 +630,16 @@ def _pm(n, p, b):
             if not _pm(a, q, b):
                 return False
         nk = {k.arg: k.value for k in n.keywords}
+        open_kw = any(k.arg is None and isinstance(k.value, ast.Name) and k.value.id == "_" for k in p.keywords)
         for k in p.keywords:
+            if k.arg is None:
+                continue
             if k.arg not in nk or not _pm(nk[k.arg], k.value, b):
                 return False
+        # a keyword the pattern does not name changes what the call computes (`endpoint=False`, `max_itr=5`, `assume_a="sym"`):
+        # it is accepted only where the pattern says so with `**_`
+        if not open_kw and not more and set(nk) - {k.arg for k in p.keywords}:
+            return False
         return True
     if isinstance(p, ast.Lambda):
         pa, na = [a.arg for a in p.args.args], [a.arg for a in n.args.args]
